@@ -250,11 +250,12 @@ def structure_viol(spec, res, files, rep, why):
             # spell the doctest's own name (DocTestCase: dotted name split at
             # the last dot; DocFileCase: the file's base name), a failure
             # child exactly when it failed
+            from vt import worldrt
+            dn = worldrt.doctest_name(t)
             if t['dt'] == 'file':
-                want_name = os.path.basename(t.get('dfile') or '/vtw/%s.txt' % tid)
+                want_name = os.path.basename(dn)
                 ok = lambda k: k[1] == want_name
             else:
-                dn = t.get('dname') or 'vtw.tests.d_%s' % tid
                 ok = lambda k: ((k[0] + '.' + k[1]) if k[0] else k[1]) == dn
             if ILLEGAL.search(t.get('dfile') or t.get('dname') or ''):
                 continue
